@@ -85,6 +85,8 @@ enum Act {
     Detach,
     /// `later p probe`: only look at `RpcReplyPort::is_closed` of a kept / detached / stashed port
     Probe,
+    /// `fail a err|panic`: the handler fails while it holds the message (and its port)
+    Fail(bool),
 }
 
 impl Act {
@@ -95,6 +97,7 @@ impl Act {
             Act::Keep => "keep".into(),
             Act::Detach => "detach".into(),
             Act::Probe => "probe".into(),
+            Act::Fail(p) => if *p { "panic".into() } else { "err".into() },
         }
     }
     fn parse(s: &str) -> Option<Act> {
@@ -246,6 +249,17 @@ impl Actor for Callee {
     async fn handle(&self, _: ActorRef<Msg>, msg: Msg, st: &mut CalleeState) -> Result<(), ActorProcessingErr> {
         // wait until the harness says what this handler does with the message
         let Some(act) = st.gate.recv().await else { return Ok(()) };
+        if let Act::Fail(panic) = act {
+            // the handler fails while it still owns the message — and the reply port inside it
+            st.log.lock().unwrap().push(match &msg {
+                Msg::Fwd(v) => format!("failed-fwd {v}"),
+                Msg::Call(id, _) => format!("failed {id}"),
+            });
+            if panic {
+                panic!("harness: handler panics holding its message");
+            }
+            return Err("harness: handler fails holding its message".into());
+        }
         match msg {
             Msg::Fwd(v) => st.log.lock().unwrap().push(format!("fwd {v}")),
             Msg::Call(id, port) => {
@@ -256,7 +270,7 @@ impl Actor for Callee {
                         let r = port.send(v);
                         st.log.lock().unwrap().push(format!("handled {id} t={t} {}", if r.is_ok() { "sent-ok" } else { "sent-err" }));
                     }
-                    Act::Drop | Act::Probe => {
+                    Act::Drop | Act::Probe | Act::Fail(_) => {
                         drop(port);
                         st.log.lock().unwrap().push(format!("handled {id} t={t}"));
                     }
@@ -694,6 +708,21 @@ impl World {
         Self::fmt(&pre, self.events().await)
     }
 
+    /// the handler of the message `a` is working on fails (`Err` / panic)
+    async fn fail(&mut self, a: usize, panic: bool) -> String {
+        if a >= self.actors.len() {
+            return "bad-actor".into();
+        }
+        if !self.actors[a].alive || self.actors[a].queued == 0 {
+            return Self::fmt("idle", self.events().await);
+        }
+        let _ = self.actors[a].gate.send(Act::Fail(panic));
+        quiesce().await;
+        let pre = self.take_log(a);
+        self.refresh_alive();
+        Self::fmt(&pre, self.events().await)
+    }
+
     fn refresh_alive(&mut self) {
         for ah in self.actors.iter_mut() {
             if ah.alive && ah.r.get_status() == ractor::ActorStatus::Stopped {
@@ -910,6 +939,7 @@ impl World {
                 Some(act) => self.stop(a.parse().unwrap_or(99), act).await,
                 None => "bad-op".into(),
             },
+            ["fail", a, how] => self.fail(a.parse().unwrap_or(99), *how == "panic").await,
             ["drain", a] => self.drain(a.parse().unwrap_or(99)).await,
             ["advance", d] => self.advance(d.parse().unwrap_or(0)).await,
             _ => "bad-op".into(),
@@ -998,7 +1028,8 @@ async fn gen_case(log: &mut Log, st: &mut Stats, rng: &mut Rng, len: u64) {
             76..=83 => format!("fcall {a} {} {}{}", rng.below(na), gen_timeout(rng), if rng.chance(1, 2) { " m" } else { "" }),
             84..=91 => format!("advance {}", rng.pick(&[1u64, 1, 2, 3, 7])),
             92 => format!("{} {a}", rng.pick(&["badcast", "badsend", "badcall", "baddcast"])),
-            93..=94 => format!("exit {a}"),
+            93 => format!("exit {a}"),
+            94 => format!("fail {a} {}", if rng.chance(1, 2) { "err" } else { "panic" }),
             95..=97 => format!("stop {a} {}", gen_act(rng).show()),
             _ => format!("drain {a}"),
         };
@@ -1076,6 +1107,8 @@ async fn main() {
     let cases = args.u64("cases", 100);
     let len = args.u64("len", 40);
     let out = args.str("out", "/tmp/rpc");
+    // handler panics are part of the input (`fail a panic`): keep stderr quiet
+    std::panic::set_hook(Box::new(|_| {}));
     let mut rng = Rng::new(seed);
     let mut log = Log::create(std::path::Path::new(&out)).unwrap();
     let mut st = Stats::default();
